@@ -206,6 +206,15 @@ func serializeSCION(s *slayers.SCION, k l4Kind, r *vlib.Rand) []byte {
 	return append([]byte(nil), buf.Bytes()...)
 }
 
+func serializeLayers(s *slayers.SCION, u *slayers.UDP, pld []byte) []byte {
+	buf := gopacket.NewSerializeBuffer()
+	if err := gopacket.SerializeLayers(buf, gopacket.SerializeOptions{FixLengths: true, ComputeChecksums: true},
+		s, u, gopacket.Payload(pld)); err != nil {
+		panic(err)
+	}
+	return append([]byte(nil), buf.Bytes()...)
+}
+
 func hostIP(s string) addr.Host { return addr.HostIP(netip.MustParseAddr(s)) }
 
 func randHost(r *vlib.Rand) addr.Host {
